@@ -93,6 +93,13 @@ func serve(req *proto.RunReq) (resp *proto.RunResp) {
 		resp.LoadErr = "chdir: " + err.Error()
 		return
 	}
+	// as a shell does: the go command (and so go/packages) spells directories the way $PWD does, which
+	// matters when a component of the path is a symbolic link
+	os.Setenv("PWD", cwd)
+	physRoot = ""
+	if real, err := filepath.EvalSymlinks(req.Root); err == nil && real != filepath.Clean(req.Root) {
+		physRoot = real
+	}
 
 	if req.DriverFailsOnce {
 		// go/packages consults GOPACKAGESDRIVER first: a driver that fails on its first call and declines
@@ -180,6 +187,10 @@ func serve(req *proto.RunReq) (resp *proto.RunResp) {
 	return
 }
 
+// physRoot: the module root with every symbolic link resolved, when that is another spelling than the
+// one the request uses (a path below the root is recognised under either spelling).
+var physRoot string
+
 func relUnder(root, path string) (string, bool) {
 	if !filepath.IsAbs(path) {
 		if wd, err := os.Getwd(); err == nil {
@@ -187,11 +198,16 @@ func relUnder(root, path string) (string, bool) {
 		}
 	}
 	path = filepath.Clean(path)
-	if path == root {
-		return ".", true
-	}
-	if strings.HasPrefix(path, root+"/") {
-		return path[len(root)+1:], true
+	for _, r := range []string{root, physRoot} {
+		if r == "" {
+			continue
+		}
+		if path == r {
+			return ".", true
+		}
+		if strings.HasPrefix(path, r+"/") {
+			return path[len(r)+1:], true
+		}
 	}
 	return "", false
 }
